@@ -245,6 +245,95 @@ let c12 (w : string list) : string =
     Printf.sprintf "ok %d" (digest_word_shards (apply_matrix (nat_of_int words) m ins))
   | _ -> failwith "c12: bad command"
 
+(* ---- file-system operations (PAR2 / PAR1 models over Model/FS.v) ---- *)
+let string_of_bytes (l : n list) : string =
+  let b = Buffer.create 64 in
+  List.iter (fun x -> Buffer.add_char b (Char.chr (int_of_n x))) l; Buffer.contents b
+let small_n = Array.init 256 n_of_int
+let bytes_of_string (s : string) : n list =
+  List.init (String.length s) (fun i -> small_n.(Char.code s.[i]))
+let md5_fn (l : n list) : n list = bytes_of_string (Digest.string (string_of_bytes l))
+let unhex (s : string) : string =
+  if s = "-" then "" else
+  String.init (String.length s / 2) (fun i -> Char.chr (int_of_string ("0x" ^ String.sub s (2*i) 2)))
+let hx (s : string) : string =
+  if s = "" then "-" else
+  let b = Buffer.create (2 * String.length s) in
+  String.iter (fun c -> Buffer.add_string b (Printf.sprintf "%02x" (Char.code c))) s; Buffer.contents b
+let hxb (l : n list) : string = hx (string_of_bytes l)
+let md5hex (l : n list) : string = Digest.to_hex (Digest.string (string_of_bytes l))
+
+(* FS = n (path data)*n ; SCHED = m (idx:kind)*m *)
+let parse_fs (w : string list) : (n list * n list) list * (nat * fault) list * string list =
+  let rec take_files k w acc = if k = 0 then (List.rev acc, w) else
+    match w with p :: d :: r -> take_files (k-1) r ((bytes_of_string (unhex p), bytes_of_string (unhex d)) :: acc)
+               | _ -> failwith "bad FS" in
+  match w with
+  | n :: r ->
+    let (files, r) = take_files (int_of_string n) r [] in
+    (* first binding of a path wins *)
+    let files = List.fold_left (fun acc (p, d) -> if List.mem_assoc p acc then acc else acc @ [(p, d)]) [] files in
+    (match r with
+     | m :: r ->
+       let m = int_of_string m in
+       let rec take_s k w acc = if k = 0 then (List.rev acc, w) else
+         match w with
+         | x :: r ->
+           (match String.split_on_char ':' x with
+            | [i; kind] ->
+              let f = if kind = "n" then FNoEffect else FTorn (nat_of_int (int_of_string (String.sub kind 1 (String.length kind - 1)))) in
+              take_s (k-1) r ((nat_of_int (int_of_string i), f) :: acc)
+            | _ -> failwith "bad sched")
+         | [] -> failwith "bad SCHED" in
+       let (sched, r) = take_s m r [] in (files, sched, r)
+     | [] -> failwith "bad SCHED")
+  | [] -> failwith "bad FS"
+
+let class_of_err = function
+  | ENotEnoughParity -> "err:notenough" | EIO -> "err:io" | ENotExist -> "err:notexist" | _ -> "err:other"
+let res_str = function Ok _ -> "ok" | Err e -> class_of_err e | Panic _ -> "panic"
+let trace_str (tr : ioev list) : string =
+  String.concat "," (List.map (function
+    | EvRead (p, ok) -> Printf.sprintf "R:%s:%d" (hxb p) (if ok then 1 else 0)
+    | EvList (a, b, ok) -> Printf.sprintf "L:%s:%s:%d" (hxb a) (hxb b) (if ok then 1 else 0)
+    | EvWrite (p, d, ok) -> Printf.sprintf "W:%s:%s:%d" (hxb p) (md5hex d) (if ok then 1 else 0)) tr)
+let changed_str (orig : (n list * n list) list) (fin : (n list * n list) list) : string =
+  let l = List.filter_map (fun (p, d) ->
+    match List.assoc_opt p orig with
+    | Some o when o = d -> None
+    | _ -> Some (hxb p ^ ":" ^ hxb d)) fin in
+  String.concat "," (List.sort compare l)
+let fs_result mode res counts repaired (orig : (n list * n list) list) (st : io) : string =
+  Printf.sprintf "%s counts=%s repaired=%s trace=%s changed=%s" res counts
+    (String.concat "," (List.map hxb repaired))
+    (if mode = "real" then "" else trace_str st.io_trace) (changed_str orig st.io_fs)
+let int_of_nat n = let rec go n acc = match n with O -> acc | S m -> go m (acc + 1) in go n 0
+
+let p2 (w : string list) : string =
+  match w with
+  | "create" :: mode :: par :: slice :: nparity :: _g :: nf :: rest ->
+    let nf = int_of_string nf in
+    let files = List.filteri (fun i _ -> i < nf) rest and rest = List.filteri (fun i _ -> i >= nf) rest in
+    let (fs, sched, _) = parse_fs rest in
+    let p = { cp_slice = z_of_int (int_of_string slice); cp_parity = z_of_int (int_of_string nparity) } in
+    let (r, st) = par2_create md5_fn (bytes_of_string "/") (bytes_of_string (unhex par))
+        (List.map (fun f -> bytes_of_string (unhex f)) files) p (io_init fs sched) in
+    fs_result mode (res_str r) "-" [] fs st
+  | "verify" :: mode :: ix :: _g :: rest ->
+    let (fs, sched, _) = parse_fs rest in
+    let (r, st) = par2_verify md5_fn (bytes_of_string (unhex ix)) (io_init fs sched) in
+    let cs = match r with
+      | Ok c -> Printf.sprintf "%d,%d,%d,%d,%d,%d,%d" (int_of_nat c.c_usable) (int_of_nat c.c_unusable)
+                  (int_of_nat c.c_pusable) (int_of_nat c.c_punusable) (int_of_nat c.c_misplaced)
+                  (if repair_needed c then 1 else 0) (if repair_possible c then 1 else 0)
+      | _ -> "-" in
+    fs_result mode (res_str r) cs [] fs st
+  | "repair" :: mode :: ix :: dbl :: _g :: rest ->
+    let (fs, sched, _) = parse_fs rest in
+    let ((r, rp), st) = par2_repair md5_fn (bytes_of_string (unhex ix)) (dbl = "1") (io_init fs sched) in
+    fs_result mode (res_str r) "-" rp fs st
+  | _ -> failwith "p2: bad command"
+
 let dispatch (line : string) : string =
   match String.split_on_char ' ' (String.trim line) with
   | "c08" :: w -> c08 w
@@ -253,6 +342,7 @@ let dispatch (line : string) : string =
   | "c11" :: w -> c11 w
   | "c07" :: w -> c07 w
   | "c12" :: w -> c12 w
+  | "p2" :: w -> p2 w
   | _ -> failwith ("bad line: " ^ line)
 
 let () =
